@@ -97,6 +97,20 @@ func selftest(args []string) int {
 						failed = append(failed, shortObl(r.Name)+"("+r.Class+")")
 					}
 				}
+				for _, r := range res.Obls {
+					if r.cex != nil {
+						fmt.Printf("   failing input for %s: %v -> %v violates ensures %v\n", shortObl(r.Name), r.cex.Inputs, r.cex.Observed, r.cex.Violated)
+						break
+					}
+				}
+				if os.Getenv("GOVC_CEX_SELFTEST") == "2" {
+					for _, r := range res.Obls {
+						if r.Status != "proved" && len(r.cexLog) > 0 {
+							fmt.Printf("   search log (%s): %v\n", shortObl(r.Name), r.cexLog)
+							break
+						}
+					}
+				}
 				nErr := len(res.Errors) + len(res.Vacuous) + len(res.Missing)
 				if res.LoadErr != "" {
 					nErr++
